@@ -473,11 +473,12 @@ fn build_cli_cases(tier: Tier) -> Vec<CliCase> {
             }
         }
     }
-    // batch multiples on the CLI (CAP = 100): 99 / 100 / 101 / 200 / 201 packets
-    let counts: &[usize] = if tier.is_thorough() { &[99, 100, 101, 200, 201] } else { &[100, 101] };
+    // batch multiples on the CLI (CAP = 100): 99 / 100 / 101 / 200 / 201 packets; long streams: 10^3 (quick), 10^4 and 10^5 packets (thorough)
+    let counts: &[usize] = if tier.is_thorough() { &[99, 100, 101, 200, 201, 1000, 10_000, 100_000] } else { &[100, 101, 1000] };
     for &n in counts {
         let pattern: Vec<u8> = (0..n).map(|i| (i % 3) as u8).collect();
-        let mut pk = gen::pattern_stream(&pattern, 4000 + n as u64);
+        // system id fixed to ITS: the first packet the analysis sees decides the system, an unknown one is fatal
+        let mut pk = if n >= 1000 { gen::recognisable_pattern_stream(&pattern, 4000 + n as u64) } else { gen::pattern_stream(&pattern, 4000 + n as u64) };
         let mut r0 = Rdh::base();
         r0.fee_id = gen::fee_of_link(0);
         pk[0] = Packet::framed(r0, pk[0].payload.clone());
